@@ -11,7 +11,7 @@ use std::process::{Command, Stdio};
 use std::time::{Duration, Instant};
 
 #[derive(Clone, Debug)]
-pub enum Step { WaitStarts(usize), Release(u64), ReleaseAllUntilExit, SleepMs(u64), SigInt }
+pub enum Step { WaitStarts(usize), Release(u64), ReleaseAllUntilExit, SleepMs(u64), SigInt, CountAlive }
 
 #[derive(Clone, Debug)]
 pub struct Scen {
@@ -104,6 +104,7 @@ pub fn run_scen(sc: &Scen, case: u64) -> J {
     let mut status = None;
     let mut script_notes: Vec<String> = Vec::new();
     let mut released: Vec<u64> = Vec::new();
+    let mut alive_mid: Option<usize> = None;
     'script: for st in &sc.script {
         match st {
             Step::WaitStarts(n) => {
@@ -125,6 +126,8 @@ pub fn run_scen(sc: &Scen, case: u64) -> J {
                 }
             }
             Step::SleepMs(ms) => std::thread::sleep(Duration::from_millis(*ms)),
+            // how many marked processes (children of the run, not zombies) are alive at this point of the script
+            Step::CountAlive => { alive_mid = Some(survivors(&mark).len()); }
             Step::SigInt => { let _ = nix::sys::signal::kill(nix::unistd::Pid::from_raw(pid), nix::sys::signal::Signal::SIGINT); }
         }
     }
@@ -226,7 +229,7 @@ pub fn run_scen(sc: &Scen, case: u64) -> J {
             "exitCode": st.code(), "signal": st.signal(), "hang": hang, "wallMs": wall_ms,
             "stdoutLines": stdout_lines, "stderrTail": stderr_s.chars().rev().take(600).collect::<String>().chars().rev().collect::<String>(),
             "stderrPanic": stderr_s.contains("panicked at"),
-            "derived": derived, "log": log, "survivors": surv, "escapedBySetsid": escaped.len(), "files": files, "sentinelIntact": sentinel_intact, "scriptNotes": script_notes,
+            "derived": derived, "log": log, "survivors": surv, "escapedBySetsid": escaped.len(), "aliveAfterFailure": alive_mid, "files": files, "sentinelIntact": sentinel_intact, "scriptNotes": script_notes,
         }
     });
     let _ = std::fs::remove_dir_all(&base);
@@ -320,8 +323,8 @@ pub fn gen_scen(rng: &mut Rng, _thorough: bool) -> Scen {
             sc.plan = json!({"default": {"wait": true, "value_of_seed": "neg", "fork": *rng.pick(&["none", "keep"]), "fork_ignore_term": rng.chance(1, 2)}, "seeds": seeds});
             // after the failure has had ample time to be handled (the run is over by then on a correct tree) everything
             // else is released, so that a run which wrongly goes on ends by its budget rather than by the watchdog
-            sc.script = if good_first { vec![Step::WaitStarts(nc), Step::Release(good), Step::WaitStarts(nc + 1), Step::Release(failing), Step::SleepMs(400), Step::ReleaseAllUntilExit] }
-                        else { vec![Step::WaitStarts(nc), Step::Release(failing), Step::SleepMs(400), Step::ReleaseAllUntilExit] };
+            sc.script = if good_first { vec![Step::WaitStarts(nc), Step::Release(good), Step::WaitStarts(nc + 1), Step::Release(failing), Step::SleepMs(400), Step::CountAlive, Step::ReleaseAllUntilExit] }
+                        else { vec![Step::WaitStarts(nc), Step::Release(failing), Step::SleepMs(400), Step::CountAlive, Step::ReleaseAllUntilExit] };
             sc.out_dir = *rng.pick(&[0, 1]);
             sc.expect = json!({"exit": "fail", "survivors": 0, "stdoutLines": 0, "diagFiles": sc.out_dir == 1, "maxStartsAfterFailure": nc});
             sc
@@ -341,6 +344,12 @@ pub fn gen_scen(rng: &mut Rng, _thorough: bool) -> Scen {
             // evaluation cannot complete (no EOF), so the time limit must kill the group - the leader is already gone
             for sd in 0..n { if !seeds.contains_key(&sd.to_string()) && slow < 3 && rng.chance(1, 3) { slow += 1; seeds.insert(sd.to_string(), json!({"fork": "keep", "value_of_seed": "neg"})); } }
             if slow == n { seeds.remove("0"); slow -= 1; }
+            // an evaluation that needs 1.4 s under a limit of 1.9 s finishes in time and is never killed
+            let medium = rng.chance(1, 3);
+            if medium {
+                sc.opts = vec![s("-n"), n.to_string(), s("-k"), s("1900ms"), s("--num-concurrent"), (1 + rng.below(2)).to_string()];
+                if let Some(sd) = (0..n).find(|sd| !seeds.contains_key(&sd.to_string())) { seeds.insert(sd.to_string(), json!({"sleep_ms": 1400, "value_of_seed": "neg", "medium": true})); }
+            }
             sc.plan = json!({"default": {"value_of_seed": "neg"}, "seeds": seeds});
             sc.expect = json!({"exit": "ok", "starts": n, "survivors": 0, "accepted": n - slow, "rejected": slow, "fastNotKilled": true});
             sc
@@ -357,7 +366,7 @@ pub fn gen_scen(rng: &mut Rng, _thorough: bool) -> Scen {
         10 | 11 => {
             // invalid options / inputs: rejected before any evaluation
             let mut sc = base_scen("cli-invalid");
-            let which = rng.below(9);
+            let which = rng.below(10);
             sc.opts = match which {
                 0 => vec![s("-n"), s("3"), s("--num-concurrent"), s("0")],
                 1 => vec![s("-n"), s("3"), s("--sample-size"), s("0")],
@@ -366,10 +375,13 @@ pub fn gen_scen(rng: &mut Rng, _thorough: bool) -> Scen {
                 4 => vec![s("-n"), s("3"), s("--initial-guess"), s("{not json")],
                 5 => vec![s("-n"), s("3"), s("--initial-guess"), s("7.5")],
                 6 => vec![s("-n"), s("3"), s("--initial-guess"), s("\"text\"")],
+                9 => vec![s("-n"), s("3"), s("--initial-guess"), s(*rng.pick(&["{\"1\":true,\"01\":false}", "{\"+2\":true,\"2\":true}", "{\"7\":true}"]))],
                 _ => vec![s("-n"), s("3")],
             };
             if which == 7 { sc.spec_missing = true; }
             if which == 8 { sc.spec_yaml = "type: real\ninit: 2\nscale: 1\nmin: 3\n".into(); }
+            // a map that must hold 2..4 entries; the guesses above denote ONE entry (two spellings of one key, or one key)
+            if which == 9 { sc.spec_yaml = "type: anon map\ninitSize: 2\nminSize: 2\nmaxSize: 4\nvalueType:\n  type: bool\n  init: true\n".into(); }
             sc.out_dir = *rng.pick(&[0, 1]);
             sc.expect = json!({"exit": "fail", "starts": 0, "stdoutLines": 0, "survivors": 0, "which": which});
             sc
@@ -388,6 +400,7 @@ pub fn gen_scen(rng: &mut Rng, _thorough: bool) -> Scen {
             let mut sc = base_scen("outputs");
             let verbose = rng.chance(1, 2);
             sc.opts = vec![s("-n"), s("3")];
+            if rng.chance(1, 2) { sc.opts.push(s("--sample-size")); sc.opts.push(s("2")); }
             if verbose { sc.opts.push(s("--verbose")); }
             let out = match rng.below(9) {
                 0 => json!({"stdout": "{\"objFuncVal\": 1.5}"}), 1 => json!({"stdout": "{\"objFuncVal\": null}"}), 2 => json!({"stdout": "{}"}),
